@@ -55,6 +55,30 @@ Theorem C01_dispatch : forall (c : cpu) ns a h,
   fst (backend_find ns a h (x86_choice c)) = Ok (first_idx (confirm ns) h).
 Proof. intros c ns a h H1 H2 H3. apply (C01_backend (x86_choice c) ns a h H1 H2 H3). Qed.
 
+(* raw-pointer forms: find_raw(start, end) with start = base + so, end = base + eo.  None when start >= end (also
+   for start > end); otherwise the returned index lies inside [so, eo), matches, and nothing before it in the range
+   matches; every load stays inside the range *)
+Theorem C01_raw : forall (b : backend) ns a h so eo,
+  ns <> [] -> bytes_ok h -> bytes_ok ns -> eo <= length h ->
+  fst (backend_find_raw ns a h so eo b)
+    = Ok (if eo <=? so then None else option_map (fun i => so + i) (first_idx (confirm ns) (raw_range h so eo))) /\
+  loads_ok (a + so) (eo - so) 0 0 (snd (backend_find_raw ns a h so eo b)).
+Proof.
+  intros b ns a h so eo Hns Hh Hn He.
+  destruct (satq_fst _ _ _ (backend_find_raw_sat ns a h so eo Hns Hh Hn He b)) as (v & Hv & -> & Ht).
+  split; assumption.
+Qed.
+
+Theorem C01_raw_inside : forall (b : backend) ns a h so eo i,
+  ns <> [] -> bytes_ok h -> bytes_ok ns -> eo <= length h ->
+  fst (backend_find_raw ns a h so eo b) = Ok (Some i) ->
+  so <= i < eo /\ confirm ns (nth i h 0%N) = true /\ forall j, so <= j < i -> confirm ns (nth j h 0%N) = false.
+Proof. intros b ns a h so eo i Hns Hh Hn He. apply (backend_find_raw_spec ns a h so eo Hns Hh Hn He b i). Qed.
+
+Theorem C01_raw_empty_or_inverted : forall (b : backend) ns a h so eo,
+  eo <= so -> backend_find_raw ns a h so eo b = ret None.
+Proof. intros b ns a h so eo H. unfold backend_find_raw. apply Nat.leb_le in H. rewrite H. reflexivity. Qed.
+
 Theorem C01_index_in_range : forall (p : N -> bool) h i, first_idx p h = Some i -> i < length h.
 Proof. intros p h i. apply first_idx_lt. Qed.
 
@@ -76,3 +100,6 @@ Print Assumptions C01_spec_some.
 Print Assumptions C01_spec_none.
 Print Assumptions C01_index_in_range.
 Print Assumptions C01_empty.
+Print Assumptions C01_raw.
+Print Assumptions C01_raw_inside.
+Print Assumptions C01_raw_empty_or_inverted.
